@@ -62,6 +62,7 @@ ATOMS: dict[str, Callable[[ConnWorld], bytes]] = {
     # framing-level garbage
     "PRE": lambda w: b"\x02garbage" if not w.noise else b"\x00\x00\x01x",
     "ENC": lambda w: b"\x01\x00\x00",  # a Noise frame start at a plaintext client
+    "ENC1": lambda w: b"\x01",  # only its first byte (the rest of the device's answer is still on its way)
     # noise handshake
     "NH": lambda w: w.noise_handshake_bytes(),
     "NHELLO": lambda w: _nhello(w),
@@ -71,7 +72,7 @@ ATOMS: dict[str, Callable[[ConnWorld], bytes]] = {
 }
 NOISE_ONLY = {"NH", "NHELLO", "NSHAKE", "NHE", "TAMPER"}
 NEEDS_HANDSHAKE_DONE = {"H", "C", "BV", "BN", "BP", "DR", "DRESP", "PR", "PRESP", "ST", "DI", "UK", "UKD", "UKP", "BAD", "TAMPER"}
-PLAIN_ONLY = {"ENC"}
+PLAIN_ONLY = {"ENC", "ENC1"}
 
 
 def _nhello(w: ConnWorld) -> bytes:
